@@ -64,6 +64,11 @@ macro_rules! nkinds {
     ($other:ident) => { 6u32 };
 }
 
+macro_rules! call_nap {
+    (std, $h:ident, $ms:expr) => {{ let _ = (&$h, $ms); return Err("napdrop needs an async lib".to_string()); }};
+    ($lib:ident, $h:ident, $ms:expr) => { main_call!($lib, $h.nap(0, 0, $ms)).map_err(|e| format!("nap() panicked: {e}"))? };
+}
+
 macro_rules! call_asy {
     (std, [$($aw:tt)*], $h:ident, $c:expr, $s:expr, $x:expr) => {{ let _ = (&$h, $c, $s, $x); unreachable!("asy does not exist for lib=std") }};
     ($lib:ident, [$($aw:tt)*], $h:ident, $c:expr, $s:expr, $x:expr) => { $h.asy($c, $s, $x) $($aw)* };
@@ -184,6 +189,14 @@ macro_rules! stamp_actor {
                         self.rec.push(format!("asy:{caller}:{seq}:{x}:{}", self.acc));
                         self.acc
                     }
+
+                    // a reply-less call that is suspended at an await point for `ms` milliseconds (scenario `napdrop`)
+                    $asy async fn nap(&mut self, caller: u32, seq: u32, ms: u64) {
+                        let _g = self.rec.enter();
+                        self.rec.push(format!("nap:start:{caller}:{seq}"));
+                        pause_for(ms).await;
+                        self.rec.push(format!("nap:end:{caller}:{seq}"));
+                    }
                 )?
 
                 // only in the `debut` modules (consume scenario)
@@ -218,6 +231,7 @@ macro_rules! runners {
                 "slowreply" => slowreply(p),
                 "nothread" => nothread(p),
                 "chain" => chain(p),
+                "napdrop" => napdrop(p),
                 other => Err(format!("scenario {other} is not available in this module")),
             }
         }
@@ -436,6 +450,43 @@ macro_rules! runners {
                 .n("ctor_runs", rec.ctor_runs.load(SeqCst) as i64)
                 .n("drops", rec.drops.load(SeqCst) as i64)
                 .strs("log", &rec.snapshot())
+                .b("dropped_in_time", dropped_in_time)
+                .done())
+        }
+
+        // ---- 3a. napdrop: the last handle is dropped while a reply-less call is suspended at an await point inside the user's
+        //          async method and further reply-less calls are queued behind it: all of them were accepted, all of them must run
+        //          to completion before the actor is dropped (once)
+        pub fn napdrop(p: &Params) -> Result<String, String> {
+            let ms = p.num("ms", 300)? as u64;
+            let q = p.num("queued", 2)? as u32;
+            if CHAN > 0 && q as usize > CHAN {
+                return Err(format!("queued={q} exceeds channel capacity {CHAN}; the single client would block"));
+            }
+            let rec = Rec::new();
+            phase("napdrop: create");
+            let mut h = ProbeLive::new(rec.clone());
+            phase("napdrop: nap");
+            call_nap!($lib, h, ms);
+            if !wait_until(|| rec.log_contains("nap:start:0:0"), Duration::from_secs(3)) {
+                return Err("actor never entered nap()".to_string());
+            }
+            phase("napdrop: queue ticks");
+            for i in 0..q {
+                main_call!($lib, h.tick(0, i)).map_err(|e| format!("tick(0,{i}) panicked: {e}"))?;
+            }
+            let at_drop = rec.snapshot();
+            phase("napdrop: drop the last handle");
+            drop(h);
+            let dropped_in_time = wait_until(|| rec.drops.load(SeqCst) >= 1, Duration::from_millis(ms + 4000));
+            settle(&|| false, Duration::from_millis(ms + 700));
+            Ok(Obj::new(p)
+                .n("queued", q as i64)
+                .n("ms", ms as i64)
+                .strs("log_at_drop", &at_drop)
+                .strs("log", &rec.snapshot())
+                .n("drops", rec.drops.load(SeqCst) as i64)
+                .n("ctor_runs", rec.ctor_runs.load(SeqCst) as i64)
                 .b("dropped_in_time", dropped_in_time)
                 .done())
         }
@@ -689,6 +740,16 @@ macro_rules! runners {
             main_call!($lib, h.tick(0, 0)).map_err(|e| format!("tick(0,0) panicked: {e}"))?;
             main_call!($lib, h.tick(0, 1)).map_err(|e| format!("tick(0,1) panicked: {e}"))?;
             let add_value = main_call!($lib, h.add(0, 2, 5)).map_err(|e| format!("add(0,2,5) panicked: {e}"))?;
+            // dead=1: the actor dies in a panicking method before the consuming call is issued
+            let dead = p.num("dead", 0)? != 0;
+            if dead {
+                phase("consume: boom");
+                main_call!($lib, h.boom()).map_err(|e| format!("boom() panicked in the caller: {e}"))?;
+                if !wait_until(|| rec.log_contains("boom") && rec.drops.load(SeqCst) >= 1, Duration::from_secs(3)) {
+                    return Err("actor did not die in boom()".to_string());
+                }
+                std::thread::sleep(Duration::from_millis(300));
+            }
             let clones: Vec<ProbeLive> = (1..hn).map(|_| h.clone()).collect();
             // pending=k: the actor is parked in hold() and k fire-and-forget calls of a clone (dropped again) are queued
             // before the consuming call is issued, so the stop message is not the only message in the queue
@@ -741,6 +802,7 @@ macro_rules! runners {
             let mut o = Obj::new(p)
                 .n("handles", hn as i64)
                 .n("pending", pend as i64)
+                .b("dead", dead)
                 .n("add_value", add_value)
                 .n("count_before_fin", count_before_fin as i64)
                 .s("fin_outcome", fin_outcome)
